@@ -51,6 +51,12 @@ def resource_specs(base, generation="new"):
     out["midmiss.xml"] = docs.doc_of([S("M", "midtype", props=[P("mp", [2])], include=U("nothere.xml") + "#/L"),
                                       S("M2", "midtype", props=[P("m2p", [v])])])
     out["bad.xml"] = "<odML version=\"1.1\"><section><name>broken</name><type>t</type>"
+    # can be opened but not decoded: the fetch fails after urlopen succeeded (current generation only)
+    if generation == "new":
+        out["latin1.xml"] = b'<?xml version="1.0" encoding="ISO-8859-1"?>\n<odML version="1.1"><section><name>caf\xe9</name><type>t</type></section></odML>'
+    else:
+        out["latin1.xml"] = docs.doc_of([S("cafe", "t")])
+    out["midlatin.xml"] = docs.doc_of([S("M", "midtype", props=[P("mp", [2])], include=U("latin1.xml") + "#/cafe")])
     out["midbad.xml"] = docs.doc_of([S("M", "midtype", props=[P("mp", [2])], include=U("bad.xml") + "#/L")])
     return out
 
@@ -59,6 +65,10 @@ def write_resources(base, generation="new"):
     os.makedirs(base, exist_ok=True)
     specs = resource_specs(base, generation)
     for name, spec in specs.items():
+        if isinstance(spec, bytes):
+            with open(os.path.join(base, name), "wb") as fh:
+                fh.write(spec)
+            continue
         text = spec if isinstance(spec, str) else xmltext.doc_xml(spec)
         with open(os.path.join(base, name), "w") as fh:
             fh.write(text)
@@ -81,7 +91,7 @@ def resolved_spec(specs, base, name, path=None, depth=0):
     if depth > 8:
         raise ValueError("include cycle")
     spec = specs.get(name)
-    if spec is None or isinstance(spec, str):
+    if spec is None or isinstance(spec, (str, bytes)):
         raise LookupError(name)
 
     def res_sec(s):
@@ -190,7 +200,7 @@ def setup_execution(item, base):
     cache = item["cache"]
     if cache != "empty":
         os.makedirs(ctx.cache_dir)
-        src = os.path.join(base, "res" if cache == "warm" else "old")
+        src = os.path.join(base, "warm" if cache == "warm" else "old")
         for name in os.listdir(src):
             url = url_of(os.path.join(base, "res"), name)
             dst = os.path.join(ctx.cache_dir, cache_name(url))
@@ -254,6 +264,14 @@ def scenario_body(item, ctx, obs):
         call("deferred_load(midmiss)", lambda: H.deferred_load(U("midmiss.xml")))
         call("load(midmiss)", lambda: H.load(U("midmiss.xml")))
         call("load(midmiss)#2", lambda: H.load(U("midmiss.xml")))
+    elif sc == "undecodable":
+        call("deferred_load(latin1)", lambda: H.deferred_load(U("latin1.xml")))
+        call("load(latin1)", lambda: H.load(U("latin1.xml")))
+        call("load(latin1)#2", lambda: H.load(U("latin1.xml")))
+    elif sc == "undecodable-included":
+        call("deferred_load(midlatin)", lambda: H.deferred_load(U("midlatin.xml")))
+        call("load(midlatin)", lambda: H.load(U("midlatin.xml")))
+        call("load(midlatin)#2", lambda: H.load(U("midlatin.xml")))
     elif sc == "unparsable":
         call("deferred_load(bad)", lambda: H.deferred_load(U("bad.xml")))
         call("load(bad)", lambda: H.load(U("bad.xml")))
@@ -306,6 +324,9 @@ EXPECT = {
     "missing": {"deferred_load(nothere)": ("void",), "load(nothere)": ("none",), "load(nothere)#2": ("none",)},
     "missing-included": {"deferred_load(midmiss)": ("void",), "load(midmiss)": ("none-or-doc",),
                          "load(midmiss)#2": ("none-or-doc",)},
+    "undecodable": {"deferred_load(latin1)": ("void",), "load(latin1)": ("none-or-doc",), "load(latin1)#2": ("none-or-doc",)},
+    "undecodable-included": {"deferred_load(midlatin)": ("void",), "load(midlatin)": ("none-or-doc",),
+                             "load(midlatin)#2": ("none-or-doc",)},
     "unparsable": {"deferred_load(bad)": ("void",), "load(bad)": ("none",), "load(bad)#2": ("none",)},
     "unparsable-included": {"deferred_load(midbad)": ("void",), "load(midbad)": ("none-or-doc",),
                             "load(midbad)#2": ("none-or-doc",)},
@@ -317,7 +338,8 @@ EXPECT = {
     "clone-section": {"deferred_load(mid)": ("void",), "clone_section(mid, M)": ("section", "mid.xml", "M"),
                       "load(mid)": ("doc", "mid.xml")},
 }
-UNFETCHABLE = {"missing": ["nothere.xml"], "missing-included": ["nothere.xml"]}
+UNFETCHABLE = {"missing": ["nothere.xml"], "missing-included": ["nothere.xml"], "undecodable": ["latin1.xml"],
+               "undecodable-included": ["latin1.xml"]}
 
 
 def observe(v):
@@ -435,9 +457,9 @@ def judge(item, s, refs):
 # --------------------------------------------------------------------------- exploration
 
 SCENARIOS_TERM = ["same-url", "chain", "two-deferred", "diamond", "missing", "missing-included", "unparsable",
-                  "unparsable-included", "object-api", "refresh"]
+                  "unparsable-included", "undecodable", "undecodable-included", "object-api", "refresh"]
 SCENARIOS_TEMPL = ["same-url", "chain", "two-deferred", "missing", "missing-included", "unparsable",
-                   "unparsable-included", "clone-section"]
+                   "unparsable-included", "undecodable", "undecodable-included", "clone-section"]
 
 
 def items_for(tier):
@@ -467,6 +489,11 @@ def base_dir():
         for name, spec in specs_old.items():
             with open(os.path.join(base, "old", name), "w") as fh:
                 fh.write(spec if isinstance(spec, str) else xmltext.doc_xml(spec))
+        # a warm cache can only hold what was once fetched successfully: the valid earlier copy
+        os.makedirs(os.path.join(base, "warm"))
+        for name in os.listdir(os.path.join(base, "res")):
+            src = os.path.join(base, "old" if name == "latin1.xml" else "res", name)
+            shutil.copy(src, os.path.join(base, "warm", name))
         write_resources(os.path.join(base, "gone"), "new")
         os.unlink(os.path.join(base, "gone", "leaf.xml"))
         os.makedirs(os.path.join(base, "_tmp"))
